@@ -1,7 +1,7 @@
 (* One entry point for the OCaml runner: op name and byte-string arguments
    in, (result bytes, tag text) out.  All structure is decoded here, in Coq. *)
 From Coq Require Import NArith ZArith List Bool String.
-From GJ Require Import Base.Bytes Base.Show Model.Int Model.StrEnc Model.StrDec.
+From GJ Require Import Base.Bytes Base.Show Model.Int Model.StrEnc Model.StrDec Model.Compact Spec.Json.
 Import ListNotations.
 Open Scope N_scope.
 Open Scope string_scope.
@@ -16,6 +16,14 @@ Definition show_ures (r : ures) : list N * list N :=
       (str "err=" ++ show_bool err ++ str " stored=" ++
          match st with None => str "-" | Some z => show_Z z end,
        if err then match st with Some _ => str "PartialStoreBeforeError" | None => [] end else [])
+  end.
+
+Definition show_cres (r : cres (list N)) : list N :=
+  match r with
+  | COk out => 79 :: out          (* 'O' ++ bytes *)
+  | CErr => [69]                  (* 'E' *)
+  | CFuel => str "fuel"
+  | CStuck => str "stuck"
   end.
 
 Definition dispatch (op : list N) (args : list (list N)) : list N * list N :=
@@ -38,4 +46,14 @@ Definition dispatch (op : list N) (args : list (list N)) : list N * list N :=
            match v with None => str "-" | Some x => show_hex x end,
          if err then match v with Some _ => str "PartialStoreBeforeError" | None => [] end else [])
     end
+  else if list_eqb op (str "c18.compact") then
+    (show_cres (compact_run (N.eqb (nth 0 (arg 0 args) 48) 49) (arg 1 args)), [])
+  else if list_eqb op (str "c18.indent") then
+    (show_cres (indent_run (arg 0 args) (arg 1 args) (arg 2 args)), [])
+  else if list_eqb op (str "spec.compact") then
+    (match parse_json (arg 0 args) with Some (ts, _) => 79 :: render_compact ts | None => [69] end, [])
+  else if list_eqb op (str "spec.indent") then
+    (match parse_json (arg 2 args) with
+     | Some (ts, rest) => 79 :: render_indent (arg 0 args) (arg 1 args) 0 None ts ++ rest
+     | None => [69] end, [])
   else (str "no-model", []).
